@@ -1,3 +1,4 @@
+\* X02 behaviour generation, seeded random behaviours (tlc -simulate), all calls in play
 INIT BInit
 NEXT SNext
 CONSTANTS
